@@ -563,7 +563,17 @@ func (cs *Contracts) loadFile(path string) error {
 			cs.EnvShrink = append(cs.EnvShrink, [2]string{f[1], f[3]})
 			cur, curLockInv = nil, nil
 		case "lockorder":
-			cs.LockOrder = strings.FieldsFunc(d.text, func(r rune) bool { return r == '<' || r == ' ' })
+			for _, l := range strings.FieldsFunc(d.text, func(r rune) bool { return r == '<' || r == ' ' }) {
+				dup := false
+				for _, e := range cs.LockOrder {
+					if e == l {
+						dup = true
+					}
+				}
+				if !dup {
+					cs.LockOrder = append(cs.LockOrder, l)
+				}
+			}
 			cur, curLockInv = nil, nil
 		default:
 			if d.kw == "invariant" && curLockInv != nil {
